@@ -2076,16 +2076,56 @@ func (f *formatter) ScalarEncapsedStringBrackets(n *ast.ScalarEncapsedStringBrac
 }
 
 func (f *formatter) ScalarHeredoc(n *ast.ScalarHeredoc) {
-	opener := []byte("<<<EOT\n")
+	label := heredocLabel(n.Parts)
+	opener := []byte("<<<" + label + "\n")
 	if n.OpenHeredocTkn != nil && bytes.IndexByte(n.OpenHeredocTkn.Value, '\'') >= 0 {
-		opener = []byte("<<<'EOT'\n")
+		opener = []byte("<<<'" + label + "'\n")
 	}
 	n.OpenHeredocTkn = f.newToken(token.T_START_HEREDOC, opener)
 	for _, p := range n.Parts {
 		p.Accept(f)
 	}
-	n.CloseHeredocTkn = f.newToken(token.T_START_HEREDOC, []byte("EOT"))
+	n.CloseHeredocTkn = f.newToken(token.T_START_HEREDOC, []byte(label))
 	f.addFreeFloating(token.T_WHITESPACE, []byte("\n"))
+}
+
+// heredocLabel returns the closing label for a heredoc with the given parts:
+// "EOT", extended with underscores until no line of the body starts (after
+// optional indentation) with it, because such a line would end the heredoc.
+func heredocLabel(parts []ast.Vertex) string {
+	label := "EOT"
+	for heredocBodyHasLine(parts, label) {
+		label += "_"
+	}
+
+	return label
+}
+
+func heredocBodyHasLine(parts []ast.Vertex, label string) bool {
+	atLineStart := true
+	for _, p := range parts {
+		part, ok := p.(*ast.ScalarEncapsedStringPart)
+		if !ok {
+			atLineStart = false
+			continue
+		}
+
+		v := part.Value
+		for i := 0; i < len(v); i++ {
+			if atLineStart {
+				j := i
+				for j < len(v) && (v[j] == ' ' || v[j] == '\t') {
+					j++
+				}
+				if bytes.HasPrefix(v[j:], []byte(label)) {
+					return true
+				}
+			}
+			atLineStart = v[i] == '\n' || v[i] == '\r'
+		}
+	}
+
+	return false
 }
 
 func (f *formatter) ScalarLnumber(n *ast.ScalarLnumber) {
